@@ -30,6 +30,15 @@ var c01Deep = [][3]string{
 	{"(macexpand ", "1", ")"}, {"(type? ", "1", ")"}, {"a.", "b", ""}, {"a[", "1", "]"}, {"(for [1 1 1] ", "(break)", ")"}, {"\"", "x", "\""},
 }
 
+// calls of typed functions / methods (declared in the case's preamble) with every mix of labels
+var c01TypedCalls = []string{
+	"(sub2 5 1)", "(sub2 a: 5 b: 1)", "(sub2 b: 1 a: 5)", "(sub2 a: 5)", "(sub2 b: 1)", "(sub2 a: 5 1)", "(sub2 5 b: 1)", "(sub2 a:)", "(sub2 a: b:)", "(sub2 c: 1)", "(sub2 a: 5 c: 1)",
+	"(sub2 a: 5 a: 6)", "(sub2 a: 5 b: 1 b: 2)", "(sub2 1 2 3)", "(sub2)", "(sub2 a: \"s\" b: 1)", "(sub2 a: nil b: 1)", "(sub2 a: (sub2 a: 1) b: 1)", "(sub2 b: a: 1 2)", "(sub2 a: 5 b: [1])",
+	"(one1 s: \"x\")", "(one1 s: 5)", "(one1 s:)", "(one1 t: \"x\")", "(one1 \"x\" s: \"y\")", "(mv9 pt 1 2)", "(mv9 pt dx: 1 dy: 2)", "(mv9 pt dx: 1)", "(mv9 pt dy: 2)", "(mv9 p: pt dx: 1 dy: 2)",
+	"(mv9 dx: 1 dy: 2)", "(mv9 5 1 2)", "(mv9 pt dx: 1 dy: 2 dz: 3)", "(pt.mv9 1 2)", "(Pt9 x: 1)", "(Pt9 x:)", "(Pt9 x: 1 x: 2)", "(Pt9 z: 1)", "(Pt9 1 2)", "(Pt9 x: \"s\")",
+	"(lz9 x: (boom9) y: 10)", "(lz9 (boom9) 10)", "(lz9 y: 10)", "(lz9 who9 1)", "(vr9 1)", "(vr9 a: 1)", "(vr9 1 2 3)", "(vr9 a: 1 r: 2)", "(apply sub2 [a: 5])", "(map sub2 [a: b:])",
+}
+
 var c01Infix = []string{"1", "a", "a:", "top:", ";", ",", "=", ":=", "+", "-", "*", "**", "<", "==", "and", "not", "if", "else", "for", "range", "break", "continue", "{", "}", "[", "]", "(", ")", ".", "a.b", "a[1]", "\"s\"", "++", "+=", "(f a)", "\n"}
 
 // names that legitimately end, block or leave the process when called
@@ -83,12 +92,12 @@ func c01Setup(c *core.Ctx) {
 	})
 }
 
-type c01plan struct{ tok1, tok2, tok3, infix, deep, shapes, names, mut, chaos, cyc, sel, seq, repl int }
+type c01plan struct{ tok1, tok2, tok3, infix, deep, shapes, names, mut, chaos, cyc, sel, typed, api, seq, repl int }
 
 func c01Plan(c *core.Ctx) c01plan {
 	c01Setup(c)
 	k := len(c01Alphabet)
-	p := c01plan{tok1: 1, tok2: k, infix: len(c01Infix), deep: len(c01Deep), shapes: len(c01special), names: len(c01names), mut: thorN(c, 600, 12000), chaos: thorN(c, 800, 15000), cyc: 12, sel: 7 * 7, seq: thorN(c, 20, 200), repl: thorN(c, 12, 120)}
+	p := c01plan{tok1: 1, tok2: k, infix: len(c01Infix), deep: len(c01Deep), shapes: len(c01special), names: len(c01names), mut: thorN(c, 600, 12000), chaos: thorN(c, 800, 15000), cyc: 12, sel: 7 * 7, typed: len(c01TypedCalls), api: thorN(c, 40, 400), seq: thorN(c, 20, 200), repl: thorN(c, 12, 120)}
 	if c.Thor {
 		p.tok3 = k * k
 	}
@@ -99,14 +108,14 @@ func init() {
 	core.Register(&core.Prop{
 		ID:    "C01",
 		Level: "exploration",
-		Rule: "inputs: (1) every string of 1 and 2 (quick) / 1..3 (thorough) tokens over a 103-token alphabet, and every infix block { … } with a body of 2 (a fifth of them 3; thorough all 3) tokens over a 36-token infix alphabet with 0-2 line/block comments after the brace, and 30 constructs nested 200 / 2000 (thorough 6000) levels deep, balanced, left open and over-closed (every bracket, quote, sigil and operator character, one literal of each numeric notation, string/char/raw-string openers, comment openers, every special-form name), with and without blanks between tokens; (2) every special form of the compiler and every name bound after StandardSetup (except the ones that end, block or leave the process by design) with 0..4 arguments over 33 argument kinds (including dotted pairs and improper argument lists); (3) byte- and token-level mutations (delete, duplicate, swap, truncate, splice) of the tests/*.zy corpus; (4) generated programs in chaos mode (ill-typed calls, wrong arities, out-of-range indices, tokens replaced by brackets/sigils); (5) self-referential arrays/hashes printed, compared, encoded and converted; index / slice / selector expressions over arrays, strings, lists and hashes with every combination of 7 bounds (in range, equal, inverted, negative, past the end, huge) as values, assignment sources and assignment targets; (6) sequences of hostile inputs against one long-lived interpreter; (7) lines fed to the real REPL (cmd/zygo -no-liner) and texts given to cmd/zygo -c. " +
+		Rule: "inputs: (1) every string of 1 and 2 (quick) / 1..3 (thorough) tokens over a 103-token alphabet, and every infix block { … } with a body of 2 (a fifth of them 3; thorough all 3) tokens over a 36-token infix alphabet with 0-2 line/block comments after the brace, and 30 constructs nested 200 / 2000 (thorough 6000) levels deep, balanced, left open and over-closed (every bracket, quote, sigil and operator character, one literal of each numeric notation, string/char/raw-string openers, comment openers, every special-form name), with and without blanks between tokens; (2) every special form of the compiler and every name bound after StandardSetup (except the ones that end, block or leave the process by design) with 0..4 arguments over 33 argument kinds (including dotted pairs and improper argument lists); (3) byte- and token-level mutations (delete, duplicate, swap, truncate, splice) of the tests/*.zy corpus; (4) generated programs in chaos mode (ill-typed calls, wrong arities, out-of-range indices, tokens replaced by brackets/sigils); (5) self-referential arrays/hashes printed, compared, encoded and converted; index / slice / selector expressions over arrays, strings, lists and hashes with every combination of 7 bounds (in range, equal, inverted, negative, past the end, huge) as values, assignment sources and assignment targets; (6) sequences of hostile inputs against one long-lived interpreter; calls of user-declared typed functions, methods and structs with every mix of positional and named arguments; the Go entry points (Apply, Run, LoadString, EvalExpressions, Duplicate/Clone, the parser, AddGlobal, host functions re-entering Apply) called with wrong counts, odd values and in the wrong order, each followed by ordinary evaluations; (7) lines fed to the real REPL (cmd/zygo -no-liner) and texts given to cmd/zygo -c. " +
 			"Entry points: EvalString, LoadString+Run, Parser.ParseTokens whole and in two pieces, EvalExpressions on the parsed forms, macro definition+expansion. Monitor: a recover() boundary around every call (anything reaching it escaped the library), child-process death attributed through the journal (fatal errors, exit), (nil,nil) results, results whose printing fails, and the VM step budget; a watchdog hit outside the VM loop that reproduces alone is a hang. non-trivial = every distinct input",
 		Assumptions: []string{
 			"names that end, block or leave the process by design (exit, stop, sys, system, sleep, channel operations, file writers, timeit, go) are not called; resource exhaustion by honestly expensive programs is classified inconclusive by the step budget",
 		},
 		NCases: func(c *core.Ctx) int {
 			p := c01Plan(c)
-			return p.tok1 + p.tok2 + p.tok3 + p.infix + p.deep + p.shapes + p.names + p.mut + p.chaos + p.cyc + p.sel + p.seq + p.repl
+			return p.tok1 + p.tok2 + p.tok3 + p.infix + p.deep + p.shapes + p.names + p.mut + p.chaos + p.cyc + p.sel + p.typed + p.api + p.seq + p.repl
 		},
 		Chunk:           8,
 		CaseTimeoutS:    40,
@@ -114,7 +123,7 @@ func init() {
 		HangIsViolation: true,
 		Sanitize:        true,
 		NeedsZygoBin:    true,
-		MustSee:         []string{"eval_calls", "parse_calls", "evalexpr_calls", "loadrun_calls", "repl_lines", "cli_runs", "token_strings", "form_shapes", "mutations", "deep_nests", "selector_expressions"},
+		MustSee:         []string{"eval_calls", "parse_calls", "evalexpr_calls", "loadrun_calls", "repl_lines", "cli_runs", "token_strings", "form_shapes", "mutations", "deep_nests", "selector_expressions", "typed_call_shapes", "api_misuse_steps"},
 		Run:             c01Run,
 		Describe: func(c *core.Ctx, i int) string {
 			return "case " + fmt.Sprint(i) + ": " + c01Describe(c, i)
@@ -134,7 +143,7 @@ func c01Kind(c *core.Ctx, i int) (string, int) {
 	for _, k := range []struct {
 		name string
 		n    int
-	}{{"tok1", p.tok1}, {"tok2", p.tok2}, {"tok3", p.tok3}, {"infix", p.infix}, {"deep", p.deep}, {"shapes", p.shapes}, {"names", p.names}, {"mut", p.mut}, {"chaos", p.chaos}, {"cyc", p.cyc}, {"sel", p.sel}, {"seq", p.seq}, {"repl", p.repl}} {
+	}{{"tok1", p.tok1}, {"tok2", p.tok2}, {"tok3", p.tok3}, {"infix", p.infix}, {"deep", p.deep}, {"shapes", p.shapes}, {"names", p.names}, {"mut", p.mut}, {"chaos", p.chaos}, {"cyc", p.cyc}, {"sel", p.sel}, {"typed", p.typed}, {"api", p.api}, {"seq", p.seq}, {"repl", p.repl}} {
 		if i < k.n {
 			return k.name, i
 		}
@@ -381,6 +390,22 @@ func c01Run(c *core.Ctx, i int) *core.Result {
 			res.Ev("selector_expressions", 1)
 		}
 		res.Input = "selector expressions with bounds " + bi + ", " + bj
+	case "typed":
+		// user-declared typed functions, methods and structs called with every mix of positional and
+		// named arguments (complete, partial, repeated, unknown, trailing label, wrong type)
+		call := c01TypedCalls[k]
+		r.fresh()
+		for _, decl := range []string{"(func sub2 [a:int64 b:int64] [r:int64] (- a b))", "(func one1 [s:string] [n:int64] (len s))", "(struct Pt9 [(field x: int64) (field y: int64)])",
+			"(method [p:Pt9] mv9 [dx:int64 dy:int64] [r:int64] (+ p.x dx dy))", "(def pt (Pt9 x: 1 y: 2))", "(func lz9 [#x:int64 y:int64] [r:int64] (+ y 1))", "(defn vr9 [a & r] (len r))", "(def who9 3)"} {
+			sut.Eval(r.env, decl+"\n", 100000) // each on its own: one rejected declaration must not hide the others
+		}
+		r.input(call + "\n")
+		r.input("(+ 1 " + call + ")\n(list " + call + " " + call + ")\n")
+		r.input("(defn w9 [] " + call + ") (w9) (w9)\n")
+		res.Ev("typed_call_shapes", 3)
+		res.Input = "typed call " + call
+	case "api":
+		c01Api(res, rng)
 	case "cyc":
 		cyc := []string{
 			"(def c [1]) (aset c 0 c) (str c)\n", "(def c [1]) (aset c 0 c) c\n", "(def c [1 2]) (aset c 1 c) (== c c)\n", "(def c [1]) (aset c 0 c) (def d [1]) (aset d 0 d) (== c d)\n",
@@ -433,6 +458,154 @@ func c01Run(c *core.Ctx, i int) *core.Result {
 	}
 	res.Hash = core.HashOf(fmt.Sprintf("%s-%d-%s", kind, k, res.Input))
 	return res
+}
+
+// c01Api: the Go entry points an embedding host uses, called in hostile ways (wrong argument counts,
+// nil and odd values, calls in the wrong order), each followed by ordinary evaluations on the same
+// interpreter: nothing may panic out of the library, and the ordinary evaluations must still return.
+func c01Api(res *core.Result, rng *core.Rng) {
+	env := zygo.NewZlisp()
+	env.StandardSetup()
+	env.EvalString("(defn addk [a b] (+ a b 1)) (defn vark [a & r] (len r)) (defn lazyk [#x y] y) (defmac incm [x] ^(+ 1 ~x))\n")
+	var hist []string
+	get := func(name string) *zygo.SexpFunction {
+		if o, ok := env.FindObject(name); ok {
+			if f, ok := o.(*zygo.SexpFunction); ok {
+				return f
+			}
+		}
+		return nil
+	}
+	for st := 0; st < 14; st++ {
+		var desc string
+		var f func() (zygo.Sexp, error)
+		switch rng.N(16) {
+		case 0:
+			n := rng.N(5)
+			desc = fmt.Sprintf("Apply(addk, %d args)", n)
+			f = func() (zygo.Sexp, error) {
+				args := []zygo.Sexp{}
+				for j := 0; j < n; j++ {
+					args = append(args, &zygo.SexpInt{Val: int64(j)})
+				}
+				return env.Apply(get("addk"), args)
+			}
+		case 1:
+			desc = "Apply(vark, no args)"
+			f = func() (zygo.Sexp, error) { return env.Apply(get("vark"), nil) }
+		case 2:
+			desc = "Apply(lazyk, 1 arg)"
+			f = func() (zygo.Sexp, error) { return env.Apply(get("lazyk"), []zygo.Sexp{zygo.SexpNull}) }
+		case 3:
+			desc = "Apply(addk, [nil-Sexp \"s\"])"
+			f = func() (zygo.Sexp, error) {
+				return env.Apply(get("addk"), []zygo.Sexp{zygo.SexpNull, &zygo.SexpStr{S: "s"}})
+			}
+		case 4:
+			desc = "Apply(builtin +, [1 \"s\"])"
+			f = func() (zygo.Sexp, error) {
+				return env.Apply(get("+"), []zygo.Sexp{&zygo.SexpInt{Val: 1}, &zygo.SexpStr{S: "s"}})
+			}
+		case 5:
+			desc = "Run() with nothing loaded"
+			f = func() (zygo.Sexp, error) { return env.Run() }
+		case 6:
+			desc = "LoadString(valid) x2 without Run, then LoadString(malformed), then Run twice"
+			f = func() (zygo.Sexp, error) {
+				env.LoadString("(def la9 1)\n")
+				env.LoadString("(+ la9 1)\n")
+				env.LoadString("(for [1 2] 3)\n")
+				env.Run()
+				return env.Run()
+			}
+		case 7:
+			desc = "EvalExpressions(nil) and of odd values"
+			f = func() (zygo.Sexp, error) {
+				env.EvalExpressions(nil)
+				env.EvalExpressions([]zygo.Sexp{})
+				return env.EvalExpressions([]zygo.Sexp{zygo.SexpNull, &zygo.SexpInt{Val: 3}, env.MakeSymbol("undefinedsym9"), zygo.SexpMarker})
+			}
+		case 8:
+			desc = "EvalExpressions of a call list built by hand with an improper tail"
+			f = func() (zygo.Sexp, error) {
+				return env.EvalExpressions([]zygo.Sexp{zygo.Cons(env.MakeSymbol("addk"), zygo.Cons(&zygo.SexpInt{Val: 1}, &zygo.SexpInt{Val: 2}))})
+			}
+		case 9:
+			desc = "Duplicate(): failing evaluation in the copy, then Clone(): failing evaluation"
+			f = func() (zygo.Sexp, error) {
+				env.Duplicate().EvalString("(addk 1)\n")
+				env.Clone().EvalString("(let)\n")
+				return env.Duplicate().EvalString("(incm 1)\n")
+			}
+		case 10:
+			desc = "parser: ParseTokens after Stop, NewInput after an error"
+			f = func() (zygo.Sexp, error) {
+				p := env.NewParser()
+				p.ResetAddNewInput(bytes.NewBufferString("(a b"))
+				p.ParseTokens()
+				p.Stop()
+				p.ParseTokens()
+				p.NewInput(bytes.NewBufferString(") \"x"))
+				_, err := p.ParseTokens()
+				p.Stop()
+				p.Stop()
+				return zygo.SexpNull, err
+			}
+		case 11:
+			desc = "EvalString of an unterminated string, of a stray closer, of an unterminated block comment"
+			f = func() (zygo.Sexp, error) {
+				env.EvalString("(def s9 \"abc\n")
+				env.EvalString(")\n")
+				return env.EvalString("/* open\n")
+			}
+		case 12:
+			desc = "AddGlobal of odd values, then use"
+			f = func() (zygo.Sexp, error) {
+				env.AddGlobal("gnil9", zygo.SexpNull)
+				env.AddGlobal("gmark9", zygo.SexpMarker)
+				return env.EvalString("(list gnil9 (str gmark9) (type? gmark9))\n")
+			}
+		case 13:
+			desc = "host function that fails / panics / re-enters Apply with a wrong count"
+			f = func() (zygo.Sexp, error) {
+				env.AddFunction("hostbad9", func(e *zygo.Zlisp, name string, args []zygo.Sexp) (zygo.Sexp, error) {
+					if len(args) > 0 {
+						panic("hostbad9 panics")
+					}
+					return e.Apply(get("addk"), []zygo.Sexp{&zygo.SexpInt{Val: 1}})
+				})
+				env.EvalString("(hostbad9)\n")
+				return env.EvalString("(hostbad9 1)\n")
+			}
+		default:
+			desc = "Apply(addk, 2 args) correctly"
+			f = func() (zygo.Sexp, error) {
+				return env.Apply(get("addk"), []zygo.Sexp{&zygo.SexpInt{Val: 1}, &zygo.SexpInt{Val: 2}})
+			}
+		}
+		hist = append(hist, desc)
+		res.Ev("api_misuse_steps", 1)
+		o := sut.Call(300000, f)
+		res.Evals++
+		if o.Panic != "" {
+			res.Violate("escaped-panic:"+o.Site, fmt.Sprintf("host-API step %q: a Go panic escaped the library: %s (earlier steps: %v)", desc, core.Trunc(o.Panic, 300), hist), strings.Join(hist, " ; "))
+			return
+		}
+		// ordinary evaluations afterwards must return (a value or an error) and still work
+		for _, t := range []string{"(+ 1 2)\n", "(addk 1 2)\n", "(incm 4)\n"} {
+			o2 := sut.Eval(env, t, 300000)
+			res.Evals++
+			if o2.Panic != "" {
+				res.Violate("escaped-panic:"+o2.Site, fmt.Sprintf("EvalString(%q) after host-API step %q: a Go panic escaped the library: %s", t, desc, core.Trunc(o2.Panic, 300)), strings.Join(hist, " ; ")+" ; "+t)
+				return
+			}
+			if o2.Budget {
+				res.Violate("did-not-return-after-api-step", fmt.Sprintf("EvalString(%q) after host-API step %q exceeded its step budget", t, desc), strings.Join(hist, " ; "))
+				return
+			}
+		}
+	}
+	res.Input = "host-API misuse: " + strings.Join(hist, " ; ")
 }
 
 func c01Mutate(r *core.Rng, t string) string {
